@@ -21,9 +21,10 @@ CONSTANTS Conns, Locals, Cids, NoCid,
           MaxQos,            \* topics.MaxQosAllowed
           MaxSteps
 
-VARIABLES conn, sess, subs, ret, out, closed, last, prev, steps, hist
+VARIABLES conn, sess, subs, ret, out, closed, last, prev, steps, hist,
+          d2      \* per connection: QoS 2 deliveries of the broker that the subscriber has not yet answered with PUBREC
 abs == <<conn, sess, subs, ret>>
-vars == <<conn, sess, subs, ret, out, closed, last, prev, steps, hist>>
+vars == <<conn, sess, subs, ret, out, closed, last, prev, steps, hist, d2>>
 
 RECURSIVE Join(_)
 Join(x) == IF Len(x) = 1 THEN x[1] ELSE x[1] \o "/" \o Join(Tail(x))
@@ -63,7 +64,12 @@ Deliveries(S, who, t, q, pl) ==
 FanOut(o, S, t, q, pl) ==
   [c \in Everyone |-> IF Deliveries(S, c, t, q, pl) = {} THEN o[c] ELSE Append(o[c], Deliveries(S, c, t, q, pl))]
 
+RECURSIVE Q2In(_)
+Q2In(gs) == IF gs = <<>> THEN 0 ELSE Cardinality({p \in Head(gs) : p.ty = "PUBLISH" /\ p.q = 2}) + Q2In(Tail(gs))
 Log(a) == /\ last' = a /\ prev' = abs /\ steps' = steps + 1
+          /\ d2' = [c \in Conns |-> IF conn'[c].st # "up" THEN 0
+                                     ELSE IF a.a = "subrec" /\ a.c = c THEN d2[c] - 1
+                                     ELSE d2[c] + Q2In(out'[c])]
           /\ hist' = Append(hist, [a |-> a, out |-> out', closed |-> closed',
                                     nsess |-> Cardinality({k \in Cids : sess'[k].ex})])
 
@@ -231,6 +237,22 @@ InitWith(C, S, U, R) ==
   /\ conn = C /\ sess = S /\ subs = U /\ ret = R
   /\ out = O0 /\ closed = [c \in Conns |-> FALSE]
   /\ last = [a |-> "init"] /\ prev = <<>> /\ steps = 0 /\ hist = <<>>
+  /\ d2 = [c \in Conns |-> 0]
+
+-----------------------------------------------------------------------------
+(* The broker as sender towards a subscriber (4.3.3): the subscriber answers the oldest QoS 2 delivery it has not
+   answered yet with PUBREC; the broker replies PUBREL with the same packet identifier. PUBACK / PUBCOMP of the
+   subscriber are consumed silently.                                                                            *)
+SubRec(c) ==
+  /\ c \in Conns /\ Up(c) /\ d2[c] > 0
+  /\ out' = Grp(O0, c, {Ack("PUBREL", -1)})
+  /\ UNCHANGED <<conn, sess, subs, ret, closed>>
+  /\ Log([a |-> "subrec", c |-> c])
+SubAckOther(c, ty) ==
+  /\ c \in Conns /\ Up(c)
+  /\ out' = O0
+  /\ UNCHANGED <<conn, sess, subs, ret, closed>>
+  /\ Log([a |-> "suback", c |-> c, ty |-> ty])
 
 -----------------------------------------------------------------------------
 (* Design-level invariants (checked by TLC on every configuration)                      *)
